@@ -46,7 +46,7 @@ type customCase struct {
 var retainedKinds = map[string]bool{"args": true, "ilazyargs": true}
 
 var funcKinds = []string{"const", "id", "proj", "tuple", "errval", "errplain", "errarg", "args", "const", "id", "proj", "tuple"}
-var iterKinds = []string{"iempty", "iconsts", "iargs", "ierrmid", "iid", "ilazycopy", "ilazyargs", "iconsts", "iargs", "iid"}
+var iterKinds = []string{"iempty", "iconsts", "iargs", "ierrmid", "iid", "ilazycopy", "ilazyargs", "iitems", "iconsts", "iargs", "iid", "iitems"}
 
 type valueErr struct{ v any }
 
@@ -79,6 +79,20 @@ func params(n int, prefix string) []string {
 		ps[i] = prefix + "a" + strconv.Itoa(i+1)
 	}
 	return ps
+}
+
+// nest writes the items of an iterator body as `i1, (i2, (i3, empty))`.  The
+// value sequence is that of `i1, i2, i3`; the shape matters only to a caller
+// that keeps calling Next after an error value, which makes gojq resume the
+// oldest pending alternative: an iterator cannot know that it is exhausted, so
+// one alternative is pending behind each of its items, the last one included,
+// and never two at a time as in the left-nested `(i1, i2), i3`.
+func nest(es []string) string {
+	s := "empty"
+	for i := len(es) - 1; i >= 0; i-- {
+		s = es[i] + ", (" + s + ")"
+	}
+	return s
 }
 
 // bodyText is the jq body equivalent to the callback, for arity n.
@@ -116,12 +130,9 @@ func bodyText(b bodySpec, n int, cv any) string {
 		return "empty"
 	case "iconsts":
 		es := elems()
-		if len(es) == 0 {
-			return "empty"
-		}
-		return strings.Join(es, ", ")
+		return nest(es)
 	case "iargs":
-		return strings.Join(append([]string{"."}, params(min3(n), "$")...), ", ")
+		return nest(append([]string{"."}, params(min3(n), "$")...))
 	case "ierrmid":
 		es := elems()
 		for i := range es {
@@ -129,17 +140,16 @@ func bodyText(b bodySpec, n int, cv any) string {
 				es[i] = "error(" + es[i] + ")"
 			}
 		}
-		return strings.Join(es, ", ")
+		return nest(es)
+	case "iitems":
+		return itemsText(b, cv)
 	case "iid":
 		if b.K <= 0 {
 			return "empty"
 		}
-		return strings.Join(strings.Split(strings.Repeat(".", b.K), ""), ", ")
+		return nest(strings.Split(strings.Repeat(".", b.K), ""))
 	case "ilazycopy", "ilazyargs":
-		if n == 0 {
-			return "empty"
-		}
-		return strings.Join(params(min3(n), "$"), ", ")
+		return nest(params(min3(n), "$"))
 	}
 	return "error(\"bad body kind\")"
 }
@@ -209,6 +219,8 @@ func iterCallback(b bodySpec, constFor func(int) any, calls *int) func(any, []an
 				}
 			}
 			return gojq.NewIter[any](vals...)
+		case "iitems":
+			return itemsIter(b, cv)
 		case "iid":
 			return &lazyIter{at: func(i int) (any, bool) { return x, i < b.K }}
 		case "ilazycopy":
@@ -286,7 +298,7 @@ func build(regs []regSpec) (*built, error) {
 			return nil, err
 		}
 		switch r.Body.Kind {
-		case "iconsts", "ierrmid":
+		case "iconsts", "ierrmid", "iitems":
 			if arr, ok := cv.([]any); !ok || len(arr) == 0 && r.Body.Kind == "ierrmid" {
 				return nil, errors.New("constant of " + r.Body.Kind + " must be an array")
 			}
@@ -348,6 +360,7 @@ func build(regs []regSpec) (*built, error) {
 }
 
 type custOutcome struct {
+	drained  bool
 	msg      string
 	discard  string
 	calls    int
@@ -401,6 +414,19 @@ func checkCustom(c customCase) custOutcome {
 	if m := sameRun("callback", "def     ", rn, rd); m != "" {
 		o.msg = m + "\n  definitions: " + b.prefix
 		return o
+	}
+	if rn.Err != nil {
+		// the caller may go on after an error value: the rest must agree too
+		m, d := compareDrained(codeN, codeD, c.Input.X, b.prefix)
+		if d != "" {
+			o.discard = d
+			return o
+		}
+		o.drained = true
+		if m != "" {
+			o.msg = m
+			return o
+		}
 	}
 	for i := range b.consts {
 		if !univ.Same(b.consts[i], b.snap[i]) {
@@ -550,6 +576,9 @@ func genRegs(t *rapid.T, noRetained bool) []regSpec {
 				b.K = rapid.IntRange(0, 2).Draw(t, "k")
 			case "iid":
 				b.K = rapid.IntRange(0, 3).Draw(t, "k")
+			case "iitems":
+				b.Const = pick(t, "consts", append([]string{"[]", "[1]", "[\"x\"]"}, constArrPool...))
+				b.K = rapid.IntRange(0, 26).Draw(t, "k")
 			}
 			regs = append(regs, regSpec{Name: name, Min: lo, Max: hi, Iter: iter, Body: b})
 		}
@@ -973,6 +1002,9 @@ func doCustom(sub string, c customCase) string {
 			rec.Class("custom/overlapping-registrations")
 		}
 	}
+	if o.drained {
+		rec.Class("custom/driven-past-errors")
+	}
 	switch {
 	case o.calls == 0:
 		rec.Class("custom/callback-invocations/0")
@@ -1095,6 +1127,22 @@ func runCustom(t *testing.T) {
 		}
 	}
 	rec.Exhaustive("custom: arities 0..30 x body kinds x {alone, shadowing an earlier registration, beside a later one}", complete)
+
+	// (E2) every NewIter item sequence of length 0..3 over {value, Go error,
+	// ValueError} (one error alone is the unit iterator) and plain functions
+	// returning an error, in fork-free and forked calling contexts, driven
+	// past every error
+	complete = true
+	for i, c := range drainSweep() {
+		if !rec.Mine(i) || rec.Violations() > 20 {
+			continue
+		}
+		if msg := doCustom("custom-drain", c); msg != "" {
+			rec.Direct("custom-drain", c, "%s", msg)
+			complete = false
+		}
+	}
+	rec.Exhaustive("custom: NewIter item sequences (length 0..3 over value / Go error / ValueError) x calling contexts, driven past errors", complete)
 
 	// (R1) own context grammar
 	rec.Rapid(t, "custom-ctx", rec.Scale(36000, 800000), func(t *rapid.T) {
